@@ -102,6 +102,9 @@ pub enum HashKind {
     Extended(u8),
     /// `len` octets from a seed, `unused` unused bits
     Random { len: u8, unused: u8, seed: u8 },
+    /// the real hash with octets `i` and `j` changed by the same mask (mask 0: exchanged),
+    /// or with the single bit `mask` of octet `i` flipped when `i == j`
+    Near { i: u8, j: u8, mask: u8 },
 }
 
 #[derive(Clone, Debug, Serialize, Deserialize)]
@@ -128,6 +131,22 @@ impl Entry {
                 let unused = if v.is_empty() { 0 } else { *unused & 7 };
                 der::zero_unused(&mut v, unused);
                 (v, unused)
+            }
+            HashKind::Near { i, j, mask } => {
+                let mut v = real.to_vec();
+                let (i, j) = (*i as usize % 32, *j as usize % 32);
+                if i == j {
+                    v[i] ^= 1 << (mask % 8);
+                } else if *mask != 0 {
+                    v[i] ^= mask;
+                    v[j] ^= mask;
+                } else if v[i] != v[j] {
+                    v.swap(i, j);
+                } else {
+                    v[i] ^= 0xAA;
+                    v[j] ^= 0xAA;
+                }
+                (v, 0)
             }
         }
     }
@@ -186,6 +205,7 @@ fn hash_strategy() -> BoxedStrategy<HashKind> {
         1 => (1u8..33).prop_map(HashKind::Extended),
         3 => (prop_oneof![3 => 0u8..=64, 2 => Just(32u8)], 0u8..8, any::<u8>())
             .prop_map(|(len, unused, seed)| HashKind::Random { len, unused, seed }),
+        2 => (0u8..32, 0u8..32, prop_oneof![Just(0u8), Just(1u8), any::<u8>()]).prop_map(|(i, j, mask)| HashKind::Near { i, j, mask }),
     ]
     .boxed()
 }
